@@ -11,7 +11,9 @@ C33 checker.  One real node per case (memberlist mock transport, recording).
   witness <ltime>                                 => ok     (a remote user event with that Lamport time: moves the event clock)
   query <nameLen> <payloadLen|n> <nFilterNodes> <relayFactor> <t|f ack> <timeoutNs>
                                                   => ok delivered=<0|1> sent=<len> idw=<bytes of the random ID> | err-size delivered=0 sent=- | err-other
-  respond <payloadLen|n>                          => ok pkts=<lens of query-response packets written to the transport> | err-size pkts=- | err-other
+  members <k>                                     => ok     (k fake alive members, protocol 5, joined through the memberlist event delegate: relay targets)
+  respond <payloadLen|n>                          => ok pkts=<lens of the response (type 5) and relay (type 9) packets written to the transport, in order>
+                                                     | err-size pkts=<…> | err-other pkts=<…>
 
 The model runs the statement lists of Gen/Limits.lean with exact encoded lengths from
 the codec model.  The random query ID's width is an oracle (reported by the harness for
@@ -22,7 +24,10 @@ MONITOR (implementation outputs only):
   * event err ⇒ delivered=0 and nothing sent                                               key event-rejected-leak
   * query ok ⇒ sent length ≤ qLimit                                                        key query-oversize-sent
   * query err ⇒ delivered=0 and nothing sent                                               key query-rejected-leak
-  * respond: every packet length ≤ rLimit                                                  key response-oversize-sent
+  * respond: every packet length (direct and relayed) ≤ rLimit                             key response-oversize-sent
+A rejected-after-encoding event / a rejected query advances the node's own Lamport clock
+(the time is taken with one atomic Increment when the message is built); that is not an
+observable effect and is not flagged — the model's clock follows the generated clock step.
 -/
 namespace SerfModel.Check.C33
 open SerfModel SerfModel.Check SerfModel.Msgpack SerfModel.Codec SerfModel.Limits SerfModel.LimitSteps
@@ -35,8 +40,10 @@ structure St where
   port : Nat := 0
   eventClock : Nat := 1
   queryClock : Nat := 1
-  /-- pending query (ltime, id width, timeout) for `respond` -/
-  pending : Option (Nat × Nat × Int) := none
+  /-- pending query (ltime, id width, timeout, relay factor) for `respond` -/
+  pending : Option (Nat × Nat × Int × Nat) := none
+  /-- fake alive members added through the event delegate -/
+  fakes : Nat := 0
   deriving Inhabited
 
 def rep (c : UInt8) (n : Nat) : Bytes := List.replicate n c
@@ -135,7 +142,9 @@ def step (s : St) (op : List String) (impl : String) : LineOut St :=
           else if kv impl "delivered" != "0" || !sent.isEmpty then
             some ("event-rejected-leak", s!"rejected event ({st}) was delivered={kv impl "delivered"} sent={kv impl "sent"}")
           else none
-      { state := if out.ok then { s with eventClock := s.eventClock + 1 } else s, model := some model, monitor := mon }
+      -- the event clock is stepped while the message is built: also for an event rejected after encoding
+      let stepped : Bool := (clocks out.trace).contains "eventClock.Increment"
+      { state := if stepped then { s with eventClock := s.eventClock + 1 } else s, model := some model, monitor := mon }
     | _, _ => { state := s, model := some "bad-op" }
   | ["query", a, b, c, d, e, f] =>
     if !s.alive then { state := s, model := some "bad-op", monitor := panicMon } else
@@ -154,24 +163,32 @@ def step (s : St) (op : List String) (impl : String) : LineOut St :=
             some ("query-rejected-leak", s!"rejected query was delivered={kv impl "delivered"} sent={kv impl "sent"}")
           else none
       let verdict (w : Nat) : Bool := (query s.cfg (qEncLen (mkQuery s w nl pl nf rf (e == "t") to))).ok
+      -- the query clock is stepped while the message is built, whatever the size guard says afterwards
+      let stepped : Bool := (clocks (query s.cfg 0).trace).contains "queryClock.Increment"
+      let s' := if stepped then { s with queryClock := s.queryClock + 1 } else s
       match (kv impl "idw").toNat? with
       | some w =>
         let q := mkQuery s w nl pl nf rf (e == "t") to
         let enc := qEncLen q
         if (query s.cfg enc).ok then
-          { state := { s with queryClock := s.queryClock + 1, pending := some (s.queryClock, w, to) },
+          { state := { s' with pending := some (s.queryClock, w, to, rf) },
             model := some s!"ok delivered=1 sent={enc} idw={w}", monitor := mon }
-        else { state := s, model := some "err-size delivered=0 sent=-", monitor := mon }
+        else { state := s', model := some "err-size delivered=0 sent=-", monitor := mon }
       | none =>
-        if [1, 2, 3, 5].all (fun w => !verdict w) then { state := s, model := some "err-size delivered=0 sent=-", monitor := mon }
+        if [1, 2, 3, 5].all (fun w => !verdict w) then { state := s', model := some "err-size delivered=0 sent=-", monitor := mon }
         else if [1, 2, 3, 5].all verdict then
           -- the implementation must have accepted and reported the width
-          { state := s, model := some "ok delivered=1 sent=? idw=?", monitor := mon }
-        else { state := s, model := none, monitor := mon }
+          { state := s', model := some "ok delivered=1 sent=? idw=?", monitor := mon }
+        else { state := s', model := none, monitor := mon }
     | _, _, _, _, _ => { state := s, model := some "bad-op" }
+  | ["members", k] =>
+    if !s.alive then { state := s, model := some "bad-op", monitor := panicMon } else
+    match k.toNat? with
+    | some n => { state := { s with fakes := s.fakes + n }, model := some "ok", monitor := panicMon }
+    | none => { state := s, model := some "bad-op" }
   | ["respond", a] =>
     match parseLenOpt a, s.pending with
-    | some pl, some (lt, w, to) =>
+    | some pl, some (lt, w, to, rf) =>
       let r : QueryResp := { ltime := lt, id := idOfWidth w, from_ := s.nodeName, flags := 0, payload := optRep 114 pl }
       let len := respEncLen r
       let out := respondWith s.cfg len
@@ -179,12 +196,25 @@ def step (s : St) (op : List String) (impl : String) : LineOut St :=
       let mon :=
         match panicMon with
         | some m => some m
-        | none => if pk.any (· > s.cfg.rLimit) then some ("response-oversize-sent", s!"response packet of {pk} bytes with limit {s.cfg.rLimit}") else none
+        | none => if pk.any (· > s.cfg.rLimit) then some ("response-oversize-sent", s!"response/relay packet of {pk} bytes with limit {s.cfg.rLimit}") else none
       if to < 10000000000 then
         -- the query's deadline (now + timeout) may have passed: the outcome depends on wall-clock time
         { state := { s with pending := if firstTok impl == "ok" then none else s.pending }, model := none, monitor := mon }
       else if out.effects.contains "SendToAddress" then
-        { state := { s with pending := none }, model := some s!"ok pkts={len}", monitor := mon }
+        -- relayResponse: relayFactor > 0 and at least relayFactor other members
+        if rf > 0 && s.fakes ≥ rf then
+          let hdr : RelayHdr := { ip := s.addr, port := (s.port : Int), zone := [], destName := s.nodeName }
+          let rlen := relayEncLen hdr r
+          if (relay s.cfg rlen).effects.contains "SendToAddress" then
+            -- how many of the eligible members the random probing found is an oracle (≤ min rf fakes)
+            let cnt := min (pk.length - 1) (min rf s.fakes)
+            let all := len :: List.replicate cnt rlen
+            { state := { s with pending := none }, model := some s!"ok pkts={",".intercalate (all.map toString)}", monitor := mon }
+          else
+            -- the direct response went out, the relay was refused: Respond reports the size error and
+            -- the query stays open
+            { state := s, model := some s!"err-size pkts={len}", monitor := mon }
+        else { state := { s with pending := none }, model := some s!"ok pkts={len}", monitor := mon }
       else { state := s, model := some "err-size pkts=-", monitor := mon }
     | _, _ => { state := s, model := some "bad-op" }
   | _ => { state := s, model := some "bad-op" }
